@@ -186,10 +186,14 @@ class Isomorphism(Generic[ClassType1, ObjType1, ClassType2, ObjType2]):
         """Get path to nodes that are not on the LHS of equivalence rules."""
         rule1, rule2 = self._rules1[node1], self._rules2[node2]
         nodes1, nodes2 = [node1], [node2]
-        if rule1.is_equivalence():
+        # An equivalence path ends at a class that appears in a non-equivalence
+        # rule, and that class can itself be on the left of another path.
+        while rule1.is_equivalence() and rule1.children[0] not in nodes1:
             nodes1.append(rule1.children[0])
-        if rule2.is_equivalence():
+            rule1 = self._rules1[nodes1[-1]]
+        while rule2.is_equivalence() and rule2.children[0] not in nodes2:
             nodes2.append(rule2.children[0])
+            rule2 = self._rules2[nodes2[-1]]
         return nodes1, nodes2
 
     def _base_cases(
